@@ -225,7 +225,9 @@ class C14(Prop):
         entire = text
         if entire == '' or entire[-1] != ';':
             entire = entire + ';'
-        ok, why = grammar.derivable(entire)
+        # (the large regular texts of the enumerated part are derivable by construction: the cubic recogniser is
+        # not run on thousands of tokens)
+        ok, why = (True, '') if case.get('deep') else grammar.derivable(entire)
         probs = grammar.interval_problems(entire, [c[0] for c in consts]) if ok else []
         v.info['class:' + ('derivable' if ok and not probs else 'underivable')] = 1
         err = io.StringIO()
@@ -409,6 +411,19 @@ class C14(Prop):
             done += 1
         ctx.count('texts-with-all-truncations-deletions-duplications', done)
         if ctx.shard == 0:
+            # large but perfectly regular texts: chains of hundreds of operands, deep nesting of prefix operators and
+            # of parentheses (generated requirement tables); parse() accepts them or raises RTAMTException
+            for k in (250, 450):
+                for o in ('and', 'xor', '+', 'until'):
+                    body = (' %s ' % o).join('(x >= %d)' % i if o != '+' else 'x' for i in range(k))
+                    self.check(ctx, {'type': 'parse', 'text': 'out = ' + (body if o != '+' else '(%s) >= 1' % body),
+                                     'declared': ['x'], 'mutated': True, 'deep': k})
+            for k in (220, 500):
+                for pre, post in (('always[0,1](', ')'), ('not (', ')'), ('(', ')'), ('abs(', ')')):
+                    body = pre * k + 'x' + post * k
+                    self.check(ctx, {'type': 'parse', 'text': 'out = %s >= 1' % body if pre in ('(', 'abs(') else
+                                     'out = ' + pre * k + '(x >= 1)' + post * k, 'declared': ['x'], 'mutated': True, 'deep': k})
+            ctx.count('deep-or-long-texts', 2 * 4 + 2 * 4)
             for api in ('dt', 'ct', 'dt_off', 'ct_off', 'dt_on', 'ct_on'):
                 for how in ('api', 'text'):
                     for op in ('always', 'once', 'until', 'historically'):
